@@ -198,7 +198,7 @@ class try_back(wrapper):
         try:
             return self.function(*args, **kwargs)
         except Exception:
-            return args[0] if len(args)>0 else kwargs[getargs(self.function)[0]]
+            return getcallarg(self.function, args, kwargs)
             
 
 class try_value(wrapper):
